@@ -28,6 +28,9 @@ def check(run, model, tier):
     run.rule('CONSUMER.exit', 'loop guard re-reads the run flag; the stop item clears it and is not dispatched')
     run.rule('SCOPE.stop', 'stop writes only own run flag / queue / thread / tracking deque')
     run.rule('ATOMIC.timer-post', 'timer test-and-post atomic with cancel (open finding)')
+    # stop() finds the sources to cancel in the tracking deque: a thread that pops/rotates it concurrently can evict a record stop() has not cancelled yet
+    from props.c11 import confine_tracking
+    confine_tracking(run, model)
     ao = model.cls('ActiveObject')
     stop = ao.methods.get('stop')
     if stop is None:
